@@ -96,7 +96,9 @@ def run(tier, seed, workers=None):
         nontrivial_stat='c10_repeats',
         rule='BFS over histories with command comments (reset x2, help, '
              'unknown word, privileged option by a non-admin), reviews, CI '
-             'verdicts, decline; on every job transition the same evaluation '
+             'verdicts, decline, a backport of an already forwarded fix '
+             '(integration branches born in sync), merge conflicts resolved '
+             'by hand; on every job transition the same evaluation '
              'is delivered 4 times on the long-lived instance; '
              'distinct_nontrivial = repeated evaluations',
         assumptions=['a job enqueued by an evaluation is processed right '
